@@ -782,6 +782,7 @@ func runC08(p *core.Prog, r *core.Report) {
 	wiring := func(fn *ssa.Function, dir types.ChanDir, who string) {
 		best := ""
 		ok := false
+		partial := ""
 		sx.Instrs(fn, func(in ssa.Instruction) {
 			sel, isS := in.(*ssa.Select)
 			if !isS || !sel.Blocking {
@@ -804,10 +805,15 @@ func runC08(p *core.Prog, r *core.Report) {
 				if own && shared {
 					ok = true
 				} else {
-					ok = false
+					// every blocking hand-over select counts: one that waits on the own lane only (until a timer fires, say)
+					// keeps the task from idle workers for that long
+					partial = best
 				}
 			}
 		})
+		if partial != "" {
+			ok, best = false, partial
+		}
 		verb := map[types.ChanDir]string{types.SendOnly: "offers the held task on", types.RecvOnly: "listens on"}[dir]
 		r.Check(ok, "C08-R2", who+": blocking select "+verb+" own lane and shared channel", p.FuncPos(fn), best, "the blocking hand-over select of the "+who+" does not cover both the lane's own channel and the shared channel ("+best+"): a task waits behind a busy worker while another worker is idle")
 	}
